@@ -25,6 +25,7 @@ type Clause struct {
 
 type LoopSpec struct {
 	Invariants []*Clause
+	IterEns    []*Clause // per-iteration postconditions: checked on every back edge, old() = start of the iteration
 	Decreases  *Clause
 	Unroll     int
 }
@@ -432,6 +433,15 @@ func (cs *ContractSet) parseFile(path, pkg string, requirePrefix bool) error {
 					}
 					c.Text = body
 					ls.Invariants = append(ls.Invariants, c)
+					curClause = c
+				case "ensures":
+					c := &Clause{Kind: "iter_ensures", File: path, Line: ln}
+					if m := labelRe.FindStringSubmatch(body); m != nil {
+						c.Label = m[1]
+						body = body[len(m[0]):]
+					}
+					c.Text = body
+					ls.IterEns = append(ls.IterEns, c)
 					curClause = c
 				case "decreases":
 					ls.Decreases = &Clause{Kind: "decreases", Text: body, File: path, Line: ln}
